@@ -450,3 +450,155 @@ Proof.
   - reflexivity.
   - lia.
 Qed.
+
+(* ------------------------------------------------------------------ NormalizeDomain on a wire name *)
+Lemma match46 {A} (b : N) (x y : A) :
+  match b with 46 => x | _ => y end = if b =? 46 then x else y.
+Proof.
+  destruct (N.eqb_spec b 46) as [->|Hne]; [reflexivity|].
+  destruct b as [|p]; [reflexivity|].
+  do 6 (destruct p as [p|p|]; try reflexivity). congruence.
+Qed.
+
+Lemma strip_dot_eq n :
+  strip_dot n = match rev n with b :: r => if b =? 46 then rev r else n | [] => n end.
+Proof. unfold strip_dot. destruct (rev n) as [|b r]; [reflexivity|]. apply match46. Qed.
+
+Lemma ends_with_dot_eq n :
+  ends_with_dot n = match rev n with b :: _ => b =? 46 | [] => false end.
+Proof.
+  unfold ends_with_dot. destruct (rev n) as [|b r]; [reflexivity|].
+  rewrite (match46 b true false). destruct (b =? 46); reflexivity.
+Qed.
+
+Lemma lower_46 b : (lower b =? 46) = (b =? 46).
+Proof. unfold lower. destruct ((65 <=? b) && (b <=? 90)) eqn:E; lia. Qed.
+
+Lemma strip_dot_map_lower n : strip_dot (map lower n) = map lower (strip_dot n).
+Proof.
+  rewrite !strip_dot_eq, <- map_rev. destruct (rev n) as [|b r]; cbn [map]; [reflexivity|].
+  rewrite lower_46. destruct (b =? 46); [now rewrite map_rev|reflexivity].
+Qed.
+
+Lemma forallb_rev (P : N -> bool) l : forallb P (rev l) = forallb P l.
+Proof.
+  induction l as [|a l IH]; [reflexivity|]. cbn [rev forallb]. rewrite forallb_app, IH.
+  cbn [forallb]. destruct (P a), (forallb P l); reflexivity.
+Qed.
+
+Lemma forallb_impl (P Q : N -> bool) l :
+  (forall b, P b = true -> Q b = true) -> forallb P l = true -> forallb Q l = true.
+Proof.
+  intros HPQ. induction l as [|a l IH]; [reflexivity|]. cbn [forallb]. intros H.
+  apply andb_prop in H. destruct H as [Ha Hl]. rewrite (HPQ _ Ha), (IH Hl). reflexivity.
+Qed.
+
+Lemma forallb_map (Q : N -> bool) (f : N -> N) l : forallb Q (map f l) = forallb (fun b => Q (f b)) l.
+Proof. induction l as [|a l IH]; [reflexivity|]. cbn [map forallb]. now rewrite IH. Qed.
+
+Lemma strip_dot_forallb P n : forallb P n = true -> forallb P (strip_dot n) = true.
+Proof.
+  intros H. rewrite strip_dot_eq. destruct (rev n) as [|b r] eqn:Er; [exact H|].
+  destruct (b =? 46); [|exact H].
+  rewrite <- forallb_rev, Er in H. cbn [forallb] in H. apply andb_prop in H. destruct H as [_ H].
+  now rewrite forallb_rev.
+Qed.
+
+Lemma strip_dot_id n : ends_with_dot n = false -> strip_dot n = n.
+Proof.
+  rewrite ends_with_dot_eq, strip_dot_eq. destruct (rev n) as [|b r]; [reflexivity|].
+  intros ->. reflexivity.
+Qed.
+
+Lemma ltrim_sp_id l : forallb (fun b => negb (is_space b)) l = true -> ltrim_sp l = l.
+Proof.
+  destruct l as [|a l]; [reflexivity|]. cbn [forallb ltrim_sp]. intros H.
+  apply andb_prop in H. destruct H as [Ha _]. destruct (is_space a); [discriminate|reflexivity].
+Qed.
+
+Lemma trim_sp_id l : forallb (fun b => negb (is_space b)) l = true -> trim_sp l = l.
+Proof.
+  intros H. unfold trim_sp. rewrite (ltrim_sp_id l H).
+  rewrite ltrim_sp_id by now rewrite forallb_rev. apply rev_involutive.
+Qed.
+
+Lemma index_byte_none c l : forallb (fun b => negb (b =? c)) l = true -> index_byte c l = None.
+Proof.
+  induction l as [|a l IH]; [reflexivity|]. cbn [forallb index_byte]. intros H.
+  apply andb_prop in H. destruct H as [Ha Hl]. destruct (a =? c); [discriminate|].
+  now rewrite (IH Hl).
+Qed.
+
+Lemma last_is_false c l : forallb (fun b => negb (b =? c)) l = true -> last_is c l = false.
+Proof.
+  intros H. unfold last_is. rewrite <- forallb_rev in H. destruct (rev l) as [|a r]; [reflexivity|].
+  cbn [forallb] in H. apply andb_prop in H. destruct H as [Ha _]. destruct (a =? c); [discriminate|reflexivity].
+Qed.
+
+Lemma normalize_host m :
+  forallb host_char m = true -> ends_with_dot m = false -> normalize_domain m = map lower m.
+Proof.
+  intros Hc Hd. unfold normalize_domain.
+  rewrite trim_sp_id.
+  2:{ revert Hc. apply forallb_impl. intros b. unfold host_char, is_space. lia. }
+  assert (H93 : forallb (fun b => negb (b =? 93)) (map lower m) = true).
+  { rewrite forallb_map. revert Hc. apply forallb_impl. intros b. unfold host_char, lower.
+    destruct ((65 <=? b) && (b <=? 90)) eqn:E; lia. }
+  assert (H58 : forallb (fun b => negb (b =? 58)) (map lower m) = true).
+  { rewrite forallb_map. revert Hc. apply forallb_impl. intros b. unfold host_char, lower.
+    destruct ((65 <=? b) && (b <=? 90)) eqn:E; lia. }
+  rewrite (last_is_false _ _ H93).
+  unfold split_host_port, last_index_byte.
+  rewrite index_byte_none by now rewrite forallb_rev.
+  rewrite strip_dot_map_lower, (strip_dot_id _ Hd). reflexivity.
+Qed.
+
+Lemma normalize_wire_name n : wf_name n = true -> normalize_domain (strip_dot n) = norm_name n.
+Proof.
+  unfold wf_name. intros H. apply andb_prop in H. destruct H as [Hc Hd].
+  rewrite normalize_host.
+  - unfold norm_name. now rewrite strip_dot_map_lower.
+  - now apply strip_dot_forallb.
+  - destruct (ends_with_dot (strip_dot n)); [discriminate|reflexivity].
+Qed.
+
+(* ------------------------------------------------------------------ the stream round trip *)
+Lemma sniff_tls_record h m rest slack :
+  wf_hello h = true -> sniff_tls (enc_record m h ++ rest) slack = raw_name_of h.
+Proof.
+  intros Hwf. set (msg := enc_handshake h).
+  assert (Eb : enc_record m h ++ rest
+               = 22 :: 3 :: m :: blen msg / 256 :: blen msg mod 256 :: (msg ++ rest)) by reflexivity.
+  rewrite Eb. clear Eb. unfold sniff_tls.
+  set (hi := blen msg / 256). set (lo := blen msg mod 256).
+  destruct (N.ltb_spec (blen (22 :: 3 :: m :: hi :: lo :: msg ++ rest)) 5) as [Hlt|_].
+  { rewrite !blen_cons in Hlt. lia. }
+  change (nthb 0 (22 :: 3 :: m :: hi :: lo :: msg ++ rest)) with 22.
+  change (nthb 1 (22 :: 3 :: m :: hi :: lo :: msg ++ rest)) with 3.
+  change (nthb 3 (22 :: 3 :: m :: hi :: lo :: msg ++ rest)) with hi.
+  change (nthb 4 (22 :: 3 :: m :: hi :: lo :: msg ++ rest)) with lo.
+  change (skipn 5 (22 :: 3 :: m :: hi :: lo :: msg ++ rest)) with (msg ++ rest).
+  change tls_content_handshake with 22. change (22 =? 22) with true. change (3 =? 3) with true.
+  cbn [negb orb]. cbv zeta.
+  unfold hi, lo. rewrite be16_dec.
+  destruct (N.ltb_spec (blen (msg ++ rest)) (blen msg)) as [Hlt|_].
+  { rewrite blen_app in Hlt. lia. }
+  unfold blen at 1 2. rewrite !Nat2N.id.
+  rewrite firstn_app, firstn_all, Nat.sub_diag, firstn_O, app_nil_r.
+  rewrite skipn_app, skipn_all, Nat.sub_diag. cbn [skipn app].
+  apply C06_tls_roundtrip_proof. exact Hwf.
+Qed.
+
+Lemma C06_tls_stream_roundtrip_proof : C06_tls_stream_roundtrip_stmt.
+Proof.
+  intros h m rest slack Hwf Hn _. unfold sniff_group_tcp.
+  rewrite (sniff_tls_record h m rest slack Hwf).
+  unfold raw_name_of, name_of, hello_names_wf in *.
+  destruct (carried_name (h_exts h)) as [n|]; cbn [norm_outcome]; [|reflexivity].
+  f_equal. now apply normalize_wire_name.
+Qed.
+
+Print Assumptions extract_generic.
+Print Assumptions C06_tls_roundtrip_proof.
+Print Assumptions C06_quic_single_block.
+Print Assumptions C06_tls_stream_roundtrip_proof.
